@@ -18,10 +18,6 @@ import OnosVerif.Proofs.NBTotal
 namespace OnosVerif.Props.C12
 open OnosVerif OnosVerif.Path OnosVerif.NB
 
-/-- no entry of a decoded TargetVersionOverrides extension lacks its value -/
-def overridesComplete (exts : List Ext) : Prop :=
-  ∀ ov, findOverrides exts = some ov → ∀ e ∈ ov, e.2 ≠ none
-
 /-! ## translator facts the totality theorems stand on -/
 
 /-- the regular expressions of path.go are the ones the hand-written matchers implement -/
@@ -60,12 +56,10 @@ theorem C12_match_wildcard_total (query : Str) (exact : Bool) :
 
 /-! ## Set -/
 
-/-- Set (the part that holds): no request makes the pre-store phase panic, provided the decoded
-    overrides extension holds no map entry without value.  The full statement is false of code and
-    twin alike: `C12_set_total_full_fails` (known finding KF-C12-nil-override). -/
-theorem C12_set_total_partial (abs : Abs) (env : Env) (req : SetReq) (h : overridesComplete req.exts) :
-    NoPanic (setPre abs env req) :=
-  setPre_noPanic C12_regexes_supported.2.1 C12_regexes_supported.2.2 abs env req h
+/-- Set: no wire-decodable request makes the pre-store phase panic — whatever its paths, keys,
+    values, extensions or omissions (an overrides entry without value counts as absent). -/
+theorem C12_set_total (abs : Abs) (env : Env) (req : SetReq) : NoPanic (setPre abs env req) :=
+  setPre_noPanic C12_regexes_supported.2.1 C12_regexes_supported.2.2 abs env req
 
 def wEnv : Env :=
   ⟨0, [("t1".toList, some ⟨"m1".toList, "1".toList, false⟩)],
@@ -73,62 +67,33 @@ def wEnv : Env :=
 
 def wPath : PathMsg := ⟨"t1".toList, [⟨"foo".toList, []⟩], []⟩
 
-/-- `update t1:/foo = "a"` with an overrides extension whose entry for t1 has no value -/
+/-- `update t1:/foo = "a"` with an overrides extension whose entry for t1 has no value
+    (the request that used to crash `getTargetInfo`: corpus/C12/fixed-nil-override.script) -/
 def wNilOv : SetReq :=
   ⟨none, [], [], [⟨some wPath, some (.str "a".toList)⟩], [.registered 112 none (some [("t1".toList, none)])]⟩
 
-/-- The full Set totality statement fails: a wire-decodable overrides entry without value is
-    dereferenced in `getTargetInfo`. -/
-theorem C12_set_total_full_fails :
-    (match setPre concreteAbs wEnv wNilOv with
-     | .error (.panic .nilDeref) => true
-     | _ => false) = true := by
-  set_option maxRecDepth 1000000 in decide
-
 /-- What `Set` stores can be processed downstream: every path of an accepted change matches
-    `validPathRegexp` — `computeChange` refuses instead of storing the nil value of a failed
-    `NewChangeValue` (the value the transaction controller used to dereference). -/
+    `validPathRegexp` and parses back into gNMI elements — `computeChange` refuses instead of storing
+    the nil value of a failed `NewChangeValue` (the value the transaction controller used to
+    dereference). -/
 theorem C12_downstream_no_nil_value (abs : Abs) (env : Env) (req : SetReq) (tx : TxRecord)
-    (hok : setPre abs env req = .ok tx) : ∀ tp ∈ tx.pairs, isPathValid tp.2 = .ok true := by
+    (hok : setPre abs env req = .ok tx) :
+    ∀ tp ∈ tx.pairs, isPathValid tp.2 = .ok true ∧ ∃ g, parsePath tp.2 = .ok g := by
   obtain ⟨_, acc⟩ := setPre_accepted abs env req tx hok
   exact acc.valid
 
-/-- prefix `t1:/c[k]=1]` (an element `c` whose key name is `k]`), JSON update of the root with member `/d` -/
-def wTreeSet : SetReq :=
-  ⟨some ⟨"t1".toList, [⟨"c".toList, [("k]".toList, "1".toList)]⟩], []⟩, [], [],
-   [⟨some ⟨[], [], []⟩, some (.json (.flat [("/d".toList, "jv".toList)]))⟩], []⟩
-
-/-- The full downstream statement ("whatever Set stores, the controllers can process") fails: the
-    JSON-valued update lands on `/c[k]=1]/d`, a valid path text that is accepted and logged, and
-    `tree.addPathToTree` slices `keyString[eqIdx+1:brktIdx2]` with `]` before `=`
-    (known finding KF-C12-tree-slice). -/
-theorem C12_downstream_tree_full_fails :
-    (match setPre concreteAbs wEnv wTreeSet with
-     | .ok tx => tx.pairs == [("t1".toList, "/c[k]=1]/d".toList)] && !downstreamOK tx
-     | .error _ => false) = true := by
-  set_option maxRecDepth 1000000 in decide
-
 /-! ## Get -/
 
-/-- Get (the part that holds): no request makes `Get` panic before the stored values are read —
-    whatever its paths, keys, wildcards or metacharacters — provided the decoded overrides
-    extension holds no map entry without value.  Full statement: `C12_get_total_full_fails`. -/
-theorem C12_get_total_partial (st : NBState) (req : GetReq) (h : overridesComplete req.exts) :
-    NoPanic (handleGet st req) :=
-  handleGet_noPanic st req h
+/-- Get: no wire-decodable request makes `Get` panic before the stored values are read — whatever
+    its paths, keys, wildcards, metacharacters or extensions. -/
+theorem C12_get_total (st : NBState) (req : GetReq) : NoPanic (handleGet st req) :=
+  handleGet_noPanic st req
 
 def wState : NBState :=
   { NBState.init wEnv with configs := [(configID "t1".toList "m1".toList "1".toList, .values),
                                        (configID "c2".toList "m1".toList "1".toList, .empty)] }
 
 def wGetNilOv : GetReq := ⟨none, [wPath], 2, 0, [.registered 112 none (some [("t1".toList, none)])]⟩
-
-/-- The full Get totality statement fails the same way, in `addTarget`. -/
-theorem C12_get_total_full_fails :
-    (match handleGet wState wGetNilOv with
-     | .error (.panic .nilDeref) => true
-     | _ => false) = true := by
-  set_option maxRecDepth 1000000 in decide
 
 /-! ## Subscribe -/
 
@@ -144,28 +109,20 @@ theorem C12_admin_rollback_total (st : NBState) (index : Nat) :
     (handleRollback st index).log.length = st.log.length + 1 := by
   simp [handleRollback]
 
-/-- LeafSelectionQuery (the part that holds): no request panics, provided the addressed
-    configuration is not one that exists without committed values.  Full statement:
-    `C12_admin_leafsel_full_fails` (known finding KF-C12-leafsel-nil-map). -/
-theorem C12_admin_leafsel_total_partial (abs : Abs) (st : NBState) (req : LeafSelReq)
-    (h : mapGet (configID req.target req.type req.version) st.configs ≠ some .empty) :
+/-- LeafSelectionQuery: no request panics, whatever the state of the addressed configuration
+    (the value map is allocated before a change context is merged into it). -/
+theorem C12_admin_leafsel_total (abs : Abs) (st : NBState) (req : LeafSelReq) :
     NoPanic (handleLeafSel abs st req) :=
-  handleLeafSel_noPanic C12_regexes_supported.2.1 C12_regexes_supported.2.2 abs st req h
+  handleLeafSel_noPanic C12_regexes_supported.2.1 C12_regexes_supported.2.2 abs st req
 
 def wEnv2 : Env :=
   { wEnv with topo := wEnv.topo ++ [("c2".toList, some ⟨"m1".toList, "1".toList, false⟩)] }
 
+/-- a change context against the configuration of c2, which exists without committed values
+    (the request that used to write to a nil map: corpus/C12/fixed-leafsel-nil-map.script) -/
 def wLeafSel : LeafSelReq :=
   ⟨"c2".toList, "m1".toList, "1".toList, "/foo".toList,
    some ⟨none, [], [], [⟨some ⟨"c2".toList, [⟨"foo".toList, []⟩], []⟩, some (.str "a".toList)⟩], []⟩⟩
-
-/-- The full LeafSelectionQuery totality statement fails: merging a change context into a
-    configuration whose `Values` is a nil map is an assignment to an entry of a nil map. -/
-theorem C12_admin_leafsel_full_fails :
-    (match handleLeafSel concreteAbs { wState with env := wEnv2 } wLeafSel with
-     | .error (.panic .nilMapWrite) => true
-     | _ => false) = true := by
-  set_option maxRecDepth 1000000 in decide
 
 /-- GetTransaction answers every index. -/
 theorem C12_admin_gettx_total (st : NBState) (index : Nat) : NoPanic (handleGetTx st index) := by
@@ -194,19 +151,22 @@ theorem C12_capabilities_total (st : NBState) : handleCapabilities st ≤ st.env
 
 /-! non-vacuity: requests that satisfy the preconditions and go all the way -/
 
-example : overridesComplete ([] : List Ext) := by
-  intro ov h e he
-  simp only [findOverrides, Option.some.injEq] at h
-  subst h
-  cases he
+/-! the requests that used to crash are now answered -/
 
-example : overridesComplete [.registered 112 none (some [("t1".toList, some ⟨"m1".toList, "1".toList⟩)])] := by
-  intro ov h e he
-  simp only [findOverrides, extIdOverrides, if_true, Option.some.injEq] at h
-  subst h
-  simp only [List.mem_singleton] at he
-  subst he
-  simp
+set_option maxRecDepth 1000000 in
+example : (match setPre concreteAbs wEnv wNilOv with
+    | .ok tx => tx.pairs == [("t1".toList, "/foo".toList)]
+    | .error _ => false) = true := by decide
+
+set_option maxRecDepth 1000000 in
+example : (match handleGet wState wGetNilOv with
+    | .ok .reached => true
+    | _ => false) = true := by decide
+
+set_option maxRecDepth 1000000 in
+example : (match handleLeafSel concreteAbs { wState with env := wEnv2 } wLeafSel with
+    | .ok .reached => true
+    | _ => false) = true := by decide
 
 set_option maxRecDepth 1000000 in
 example : (match setPre concreteAbs wEnv { wNilOv with exts := [] } with
@@ -223,7 +183,5 @@ example : (match handleLeafSel concreteAbs { wState with env := wEnv2 } { wLeafS
     | .ok .reached => true
     | _ => false) = true := by decide
 
-set_option maxRecDepth 1000000 in
-example : mapGet (configID "t1".toList "m1".toList "1".toList) wState.configs ≠ some .empty := by decide
 
 end OnosVerif.Props.C12
